@@ -1,4 +1,5 @@
 import Driver.Seg
+import Driver.Neg
 /- Line-protocol driver: `driver <topic>` reads one op per line on stdin, prints one line per op. -/
 open Driver
 
@@ -19,4 +20,5 @@ def main (args : List String) : IO UInt32 := do
   let stdout ← IO.getStdout
   match args with
   | ["seg"] => loop stdin stdout Driver.Seg.step {}; return 0
+  | ["neg"] => loop stdin stdout Driver.Neg.step (); return 0
   | _ => IO.eprintln "usage: driver <topic>"; return 2
